@@ -363,13 +363,18 @@ RULE = ("paths of the symbolic execution of the real code: every upper-triangula
 
 
 def all_parts(pid, tier):
-    for f in (sched_parts, graph_parts, dataflow_parts, compose_parts, history_parts, thread_parts):
-        try:
-            ps = f(pid, tier)
-        except Exception:  # noqa: BLE001
-            ps = []
-        if ps:
-            return ps
+    if pid in ("C02", "C03", "C04", "C05", "C06", "C08", "C09", "C14", "C17"):
+        return sched_parts(pid, tier)
+    if pid in ("C07", "C12", "C13"):
+        return graph_parts(pid, tier)
+    if pid in ("C01", "C10", "C20"):
+        return dataflow_parts(pid, tier)
+    if pid == "C19":
+        return compose_parts(pid, tier)
+    if pid in ("C11", "C15", "C18"):
+        return history_parts(pid, tier)
+    if pid == "C16":
+        return thread_parts(pid, tier)
     return []
 
 
